@@ -314,6 +314,27 @@ def r6(ctx, ops=("partition", "partition_oneway", "repair", "repair_oneway"), R=
                              f"`{fb.id}` forwards its two host arguments to `{t['f']}` swapped or mixed: the direction of the operation is reversed")
 
 
+TWO_WAY = {"hold": "Hold", "release": "Healthy", "explicit_partition": "ExplicitPartition", "explicit_repair": "Healthy"}
+
+
+def r7(ctx, ops=("explicit_partition", "explicit_repair"), R="C03-R7"):
+    ctx.rule(R, "two-way link operations are symmetric: each of hold / release / explicit_partition / explicit_repair writes its variant to "
+                "BOTH state_a_b and state_b_a on every path (a copy-paste slip that writes one cell twice leaves the reverse direction in its old state)")
+    ts = Typestate(ctx.w, CELLS)
+    for op in ops:
+        b = ctx.body(R, "turmoil::top::Link::" + op)
+        if not b:
+            continue
+        evs, _ = ts.analyze(b)
+        want = TWO_WAY[op]
+        for cell in CELLS:
+            short = cell.rsplit("::", 1)[1]
+            wb = [e.bb for e in evs if e.cell == cell and e.new == frozenset([want])]
+            ok = bool(wb) and not always_passes(b, wb)
+            ctx.inst(R, f"{op}:{short}", ok, b.span, f"{op} sets {short} = {want} on every path" if ok else
+                     f"Link::{op} does not set {short} = {want} on every path: the operation takes effect in one direction only")
+
+
 def run(ctx):
     ts = Typestate(ctx.w, CELLS)
     r1(ctx, ts)
@@ -323,3 +344,5 @@ def run(ctx):
     r5(ctx, ts)
     r6(ctx)
     ctx.floor("C03-R6", 30)
+    r7(ctx)
+    ctx.floor("C03-R7", 4)
